@@ -162,7 +162,8 @@ class Matcher:
                 if canon(obs.get("field")) != canon(_encv(rp.value_of[es])):
                     self.add("model_field", n, expected=rp.value_of[es], actual=obs.get("field"))
                 ea = rp.allowed(es)
-                if obs.get("allowed") != ea:
+                # (each allowed event exactly once; the ORDER of allowed_events is not specified)
+                if not isinstance(obs.get("allowed"), list) or sorted(obs["allowed"]) != sorted(ea):
                     allowed_f = dict(expected=ea, actual=obs.get("allowed", obs.get("allowed_err")))
         # ---- callback sequence
         if inst is not None:
